@@ -38,6 +38,9 @@ def check(prop, tier, seed):
                 for f in ('bundle_first', 'bundle_last'):
                     extra.append(dict(r, client_ca_form=f, **{'class': 'pem_bundle_client_ca'}))
     rows = rows + extra
+    for i, r in enumerate(rows):      # every other configuration is built with the builder calls in the opposite order
+        if i % 2 == 1:
+            r['order'] = 'rev'
     ev, path = simple.run_lab('tls', rows, tag, 'table', timeout=3000)
     simple.validate(prop, 'Trace_Tls', verdict, ev, path, 'table', cov, clause_filter=lambda c: c.startswith('C15.') or c in ('NoPanic', 'NoHang'))
     cov['samples'].append({'family': 'table', 'stimulus': simple.sample_of(rows)})
